@@ -230,10 +230,11 @@ def classify_error(exc):
     return 'other:%s:%s' % (type(exc).__name__, msg[:100])
 
 
-def impl_validate(case):
+def impl_validate(case, tt=None):
     from cell_type_mapper.type_assignment.marker_cache_v2 import (
         validate_marker_lookup)
-    tt = treeio.impl_tree(case['tree'])
+    if tt is None:
+        tt = treeio.impl_tree(case['tree'])
     lk = lookup_dict(case['entries'])
     before = copy.deepcopy(lk)
     with warnings.catch_warnings():
@@ -270,11 +271,13 @@ def read_cache(path):
     return out
 
 
-def impl_create_cache(case, workdir, with_tree=True, name='cache.h5'):
+def impl_create_cache(case, workdir, with_tree=True, name='cache.h5',
+                      tt=None):
     """returns (verdict, cache dict or None, serialized dict or error)"""
     from cell_type_mapper.type_assignment.marker_cache_v2 import (
         create_marker_cache_from_specified_markers, serialize_markers)
-    tt = treeio.impl_tree(case['tree'])
+    if tt is None:
+        tt = treeio.impl_tree(case['tree'])
     path = workdir / name
     if path.exists():
         path.unlink()
@@ -315,15 +318,16 @@ def impl_create_cache(case, workdir, with_tree=True, name='cache.h5'):
 # generators
 # ---------------------------------------------------------------------------
 
-def gen_case(rng, max_depth=4, pipeline_safe=False):
+def gen_case(rng, max_depth=4, pipeline_safe=False, tree=None):
     """
     Mostly-valid structured case aimed at: |L(p) ∩ Q| = m-1, m; ancestors
     absent from the table; single-child ancestors; genes only in Q / only in
     R / in neither; duplicates; orphan keys.
     """
-    tree = gen.random_tree(rng, max_depth=max_depth, max_top=3, max_children=3,
-                           rows=False, chain_prob=0.3)
-    tree = {k: v for k, v in tree.items() if k != 'metadata'}
+    if tree is None:
+        tree = gen.random_tree(rng, max_depth=max_depth, max_top=3,
+                               max_children=3, rows=False, chain_prob=0.3)
+    tree = copy.deepcopy({k: v for k, v in tree.items() if k != 'metadata'})
     n_genes = rng.randint(4, 14)
     pool = rng.sample(GENE_POOL, n_genes)
     # shared = in Q and R; q_only; r_only; neither
@@ -426,3 +430,88 @@ def case_nontrivial(case):
         if len(set(table.get(p, [])) & qs) < case['m']:
             return True
     return False
+
+
+# ---------------------------------------------------------------------------
+# object reuse: one TaxonomyTree serving several reconciliations
+# ---------------------------------------------------------------------------
+
+def tree_snapshot(tt):
+    """the public answers of a TaxonomyTree that the marker stage consults"""
+    parents = list(tt.all_parents)
+    snap = {'all_parents': [None if p is None else list(p) for p in parents],
+            'hierarchy': list(tt.hierarchy), 'children': [], 'parents': []}
+    for p in parents:
+        if p is None:
+            snap['children'].append([None, list(tt.children(None, None))])
+        else:
+            snap['children'].append([list(p), list(tt.children(p[0], p[1]))])
+            snap['parents'].append(
+                [list(p), sorted(tt.parents(p[0], p[1]).items())])
+    return snap
+
+
+def nested_tree(rng):
+    """three levels; a top node with >= 2 children, one of which has >= 2
+    children itself (a consulted parent below a consulted ancestor)"""
+    levels = rng.sample(['class', 'subclass', 'supertype', 'L0', 'zeta'], 2) \
+        + ['cluster']
+    names = iter(gen.fresh_names(rng, 40))
+    tree = {'hierarchy': levels, levels[0]: {}, levels[1]: {}, levels[2]: {}}
+    for _ in range(rng.randint(1, 2)):
+        top = next(names)
+        mids = [next(names) for _ in range(rng.randint(2, 3))]
+        tree[levels[0]][top] = mids
+        for md in mids:
+            kids = [next(names) for _ in range(rng.randint(2, 3))]
+            tree[levels[1]][md] = kids
+            for k in kids:
+                tree[levels[2]][k] = []
+    return tree
+
+
+def gen_nested_deficiency(rng, tree):
+    """table in which a consulted parent AND its nearest listed ancestor are
+    both below min_markers while the union of their two original lists
+    reaches it; the root lists other genes"""
+    h = tree['hierarchy']
+    pool = rng.sample(GENE_POOL, 12)
+    m = rng.choice([2, 3])
+    Q = list(pool[:10])
+    R = list(pool)
+    rng.shuffle(Q)
+    rng.shuffle(R)
+    root_genes = pool[6:10]
+    entries = [[None, list(root_genes)]]
+    for top, mids in tree[h[0]].items():
+        a_genes = rng.sample(pool[:3], m - 1)
+        entries.append([[h[0], top], a_genes])
+        for md in mids:
+            x = rng.random()
+            if x < 0.7:
+                rest = [g for g in pool[:6] if g not in a_genes]
+                entries.append([[h[1], md], rng.sample(rest, m - 1)])
+            elif x < 0.85:
+                entries.append([[h[1], md], []])
+    rng.shuffle(entries)
+    return {'tree': copy.deepcopy(tree), 'entries': entries, 'Q': Q, 'R': R,
+            'm': m}
+
+
+def gen_session(rng):
+    """2-5 cases sharing one tree"""
+    if rng.random() < 0.6:
+        tree = nested_tree(rng)
+    else:
+        tree = gen.random_tree(rng, max_depth=4, max_top=3, max_children=3,
+                               rows=False, chain_prob=0.3)
+        tree = {k: v for k, v in tree.items() if k != 'metadata'}
+    steps = []
+    for j in range(rng.randint(2, 5)):
+        if len(tree['hierarchy']) == 3 and rng.random() < 0.6 and \
+                all(len(v) >= 2 for v in tree[tree['hierarchy'][1]].values()):
+            c = gen_nested_deficiency(rng, tree)
+        else:
+            c = gen_case(rng, tree=tree)
+        steps.append({k: c[k] for k in ('entries', 'Q', 'R', 'm')})
+    return {'kind': 'session', 'tree': tree, 'steps': steps}
